@@ -6,7 +6,6 @@ Open Scope Z_scope.
 
 (** Every observable of every history equals that of the sorted-list specification. *)
 Theorem C24_refines_sorted_list : forall cap ops,
-  1 <= cap ->
   snd (q_run ops (newq cap)) = snd (spec_run cap ops []) /\
   q_walk 0 (q_final cap ops) = fst (spec_run cap ops []).
 Proof. exact refines. Qed.
@@ -94,12 +93,8 @@ Theorem C24_insert_position : forall it l,
 Proof. exact spec_insert_split. Qed.
 Print Assumptions C24_insert_position.
 
-(** Push is total (never a nil dereference): false for capacity <= 0. *)
-Theorem C24_push_total_refuted : ~ C24_push_total_full.
-Proof. exact push_total_refuted. Qed.
-Print Assumptions C24_push_total_refuted.
-
-Theorem C24_push_total_partial : forall cap ops it,
-  (1 <=? cap) = true -> snd (q_push it (q_final cap ops)) <> EPanic.
-Proof. exact push_total_partial. Qed.
-Print Assumptions C24_push_total_partial.
+(** Push is total (never a nil dereference), for every capacity including <= 0. *)
+Theorem C24_push_total : forall cap ops it,
+  snd (q_push it (q_final cap ops)) <> EPanic.
+Proof. exact push_total. Qed.
+Print Assumptions C24_push_total.
